@@ -319,6 +319,27 @@ def normArr (g : Graph) : ArrArg → ArrArg
   | .ref k => if isKind g k "data_array" then .ref k else .data (some { stage := .entity, err := .typeError })
   | a => a
 
+/-- the end of `create_multi_tag` — `MultiTag.create_new`, the positions / extents setters (the extents
+inside the rolled-back section) and the `except` clause: `del multi_tags[name]`, then `undo` deletes the
+auto-created arrays. `gB` is the graph in which those arrays may already exist. -/
+def mtagTail (gB : Graph) (undo : Graph → Graph) (o : Nat) (n t : String) (pk : Nat) (ek : Option Nat) : Reached :=
+  match entityCreateNewW gB o "multi_tags" n t "multi_tag" with
+  | (g3, .error e) => (undo g3, some e)
+  | (g3, .ok (c, k)) =>
+    -- MultiTag.positions setter
+    if !isKind g3 pk "data_array" then (undo (g3.delLink c n), some .typeError)
+    else if !inBlockStore g3 o "data_arrays" pk then (undo (g3.delLink c n), some .runtimeError)
+    else
+      match ek with
+      | none => (createLinkIn g3 k "positions" pk, none)
+      | some e =>
+        -- MultiTag.extents setter
+        if !isKind (createLinkIn g3 k "positions" pk) e "data_array" then
+          (undo ((createLinkIn g3 k "positions" pk).delLink c n), some .typeError)
+        else if !inBlockStore (createLinkIn g3 k "positions" pk) o "data_arrays" e then
+          (undo ((createLinkIn g3 k "positions" pk).delLink c n), some .runtimeError)
+        else (createLinkIn (createLinkIn g3 k "positions" pk) k "extents" e, none)
+
 def createMultiTagW (g : Graph) (blockPath : Path) (name type : String) (pos ext : ArrArg) : Reached :=
   match resolve g rootLoc blockPath with
   | none => (g, some .keyError)
@@ -357,22 +378,7 @@ def createMultiTagW (g : Graph) (blockPath : Path) (name type : String) (pos ext
               let undo (h : Graph) : Graph :=
                 let h1 := undoPos h
                 if ecreated then dropAuto h1 ek else h1
-              match entityCreateNewW g2 o.key "multi_tags" name type "multi_tag" with
-              | (g3, .error e) => (undo g3, some e)
-              | (g3, .ok (c, k)) =>
-                let back (h : Graph) : Graph := undo (h.delLink c name)
-                -- MultiTag.positions setter
-                if !isKind g3 pk "data_array" then (back g3, some .typeError)
-                else if !inBlockStore g3 o.key "data_arrays" pk then (back g3, some .runtimeError)
-                else
-                  let g4 := createLinkIn g3 k "positions" pk
-                  match ek with
-                  | none => (g4, none)
-                  | some e =>
-                    -- MultiTag.extents setter (inside the rolled-back section)
-                    if !isKind g4 e "data_array" then (back g4, some .typeError)
-                    else if !inBlockStore g4 o.key "data_arrays" e then (back g4, some .runtimeError)
-                    else (createLinkIn g4 k "extents" e, none)
+              mtagTail g2 undo o.key name type pk ek
 
 /-! ## operations -/
 
